@@ -226,6 +226,7 @@ namespace
         p_neg_idx("probe", "gather_scatter_with_negative_index"), p_aligned_form("probe", "aligned_form_executed"), p_unplaceable("probe", "aligned_bool_window_not_flush(gap_to_guard)"),
         p_hole_fallback("probe", "hole_placement_not_possible(1-byte_index_or_shrunk_indices)"), p_unsigned_idx("probe", "gather_scatter_with_unsigned_index_batch"),
         p_huge_idx("probe", "gather_scatter_with_top_bit_of_the_unsigned_index_set");
+    Counter p_unplaceable_gs("info", "gather_scatter_op_skipped(index_span_larger_than_the_simulated_address_space)");
 
     sim::DistinctSet d_all("op_placement_tuples"), d_nontrivial("edge_or_straddle_tuples");
 
@@ -741,6 +742,14 @@ namespace
                         hi = std::max(hi, v);
                     }
                     wbytes = (size_t)(hi - lo + 1) * eb;
+                    if ((uint64_t)(hi - lo + 1) > (DATA - 2 * PAGE) / eb + 2 * (uint64_t)e.lanes && !(op.place == PL_HOLE && hole_valid(e, eb, op.idx)))
+                    {
+                        // the indexed elements do not fit the simulated address space (only a shrink candidate or a hand-edited replay can ask for
+                        // this): the op cannot be placed, so it is skipped rather than executed on unmapped memory and "found" to fault
+                        ++p_unplaceable_gs;
+                        log.rec("skipped-unplaceable", op.entry % table.size());
+                        continue;
+                    }
                     if (lo < 0)
                         ++p_neg_idx;
                     if (e.idx_unsigned)
